@@ -251,15 +251,33 @@ def rule_h7(ck, prog, S):
     deps = set(endL.syms()) | set(txtL.syms()) | set(lnL.syms())
     ln = a[3].strip_all_casts().get("path")
     # pointers known to lie at or behind the unit start: locals whose only definition is the header token's pointer
-    det_ = list(parse.calls("scpiParser_detectProgramMessageUnit"))
-    unit_start = C.call_args(det_[0])[1].strip_all_casts().get("path") if det_ else None
-    behind = set()
-    for d in parse.nodes.values():
-        if d.k == "DeclStmt":
-            for dd in d.get("decls", []):
-                if "init" in dd and (parse.nodes[dd["init"]].strip_all_casts().get("path") or "").endswith("programHeader.ptr") and \
-                        not [n for n, t in C.stores(parse) if t.get("path") == dd["name"]]:
-                    behind.add(dd["name"])
+    def unit_geometry(fn_):
+        det_ = list(fn_.calls("scpiParser_detectProgramMessageUnit"))
+        us = C.call_args(det_[0])[1].strip_all_casts().get("path") if det_ else None
+        bh = set()
+        for d in fn_.nodes.values():
+            if d.k == "DeclStmt":
+                for dd in d.get("decls", []):
+                    if "init" in dd and (fn_.nodes[dd["init"]].strip_all_casts().get("path") or "").endswith("programHeader.ptr") and \
+                            not [n for n, t in C.stores(fn_) if t.get("path") == dd["name"]]:
+                        bh.add(dd["name"])
+        return us, bh
+    unit_start, behind = unit_geometry(parse)
+    if unit_start is None:
+        # the push lives in a helper: what its parameters are is known at its (single) call site
+        sites_ = list(prog.callers(parse.name))
+        if len(sites_) == 1:
+            host, call_ = sites_[0]
+            us, bh = unit_geometry(host)
+            stored = {t.get("path") for n, t in C.stores(parse)}
+            for prm, a_ in zip(parse.params, C.call_args(call_)):
+                ap = a_.strip_all_casts().get("path")
+                if ap is None or prm["name"] in stored and prm["type"].get("tk") == "ptr":
+                    continue
+                if ap == us:
+                    unit_start = prm["name"]
+                elif ap in bh:
+                    behind.add(prm["name"])
 
     def empty_when_zero(v):
         """with the variable v == 0, is the text length provably <= 0 ?"""
